@@ -21,3 +21,19 @@ Theorem C16_ignored_inert : forall cfg user send_ok st a m,
   ignored st a m -> step cfg user send_ok st a m = SOk st [].
 Proof. exact ignored_inert. Qed.
 Print Assumptions C16_ignored_inert.
+
+(* translator obligations (lib/gen_statespace.py reads the structs, statics and mutable bindings of the
+   modelled code on every run): the code has the state the model represents and no other *)
+From Portus Require Import StateTie.
+From PortusGen Require Import StateSpace.
+From Coq Require Import String.
+Open Scope string_scope.
+Theorem C16_source_cursor_state : impl_fields_Backend = model_fields_Backend.
+Proof. exact fields_Backend_tie. Qed.
+Print Assumptions C16_source_cursor_state.
+Theorem C16_source_shared_state_ipc : nth 2 impl_shared_state_tokens "" = "src/ipc/mod.rs: AtomicBool".
+Proof. exact shared_state_ipc_mod. Qed.
+Print Assumptions C16_source_shared_state_ipc.
+Theorem C16_source_shared_state_serialize : nth 10 impl_shared_state_tokens "" = "src/serialize/mod.rs: unsafe".
+Proof. exact shared_state_serialize_mod. Qed.
+Print Assumptions C16_source_shared_state_serialize.
